@@ -766,14 +766,39 @@ func ruleSEARCH1(c *Ctx) {
 	// SourceFileSet.file: the containment test is Base <= p <= Base+Size in both places
 	ff := w.FuncDecl(p, "SourceFileSet.file")
 	if ff != nil {
+		// an if whose condition contains `e <= X.Base + X.Size` (or the mirrored
+		// `X.Base + X.Size >= e`) for fields Base/Size of one SourceFile X
+		isBasePlusSize := func(e ast.Expr) bool {
+			b, ok := ast.Unparen(e).(*ast.BinaryExpr)
+			if !ok || b.Op != token.ADD {
+				return false
+			}
+			fx, rx := FieldSel(p, b.X)
+			fy, ry := FieldSel(p, b.Y)
+			if fx == nil || fy == nil {
+				return false
+			}
+			names := map[string]bool{fx.Name(): true, fy.Name(): true}
+			return names["Base"] && names["Size"] && w.Src(rx) == w.Src(ry)
+		}
 		n := 0
 		ast.Inspect(ff.Body, func(nd ast.Node) bool {
 			is, ok := nd.(*ast.IfStmt)
 			if !ok {
 				return true
 			}
-			s := strings.ReplaceAll(w.Src(is.Cond), " ", "")
-			if strings.Contains(s, "<=f.Base+f.Size") {
+			found := false
+			ast.Inspect(is.Cond, func(m ast.Node) bool {
+				b, ok := m.(*ast.BinaryExpr)
+				if !ok {
+					return true
+				}
+				if (b.Op == token.LEQ && isBasePlusSize(b.Y)) || (b.Op == token.GEQ && isBasePlusSize(b.X)) {
+					found = true
+				}
+				return true
+			})
+			if found {
 				n++
 			}
 			return true
